@@ -134,7 +134,9 @@ class Handler:
                 d[b"CF"] = {b"StdCF": cf}
                 d[b"StmF"] = Name(b"StdCF")
                 d[b"StrF"] = Name(b"StdCF")
-            d[b"Length"] = 128 if self.v == 4 else 256
+            if explicit_length or self.v != 4:
+                # the top-level /Length is optional; for V 4 the key length follows from the crypt filter (128 bits)
+                d[b"Length"] = 128 if self.v == 4 else 256
             if not self.encrypt_metadata or explicit_length:
                 d[b"EncryptMetadata"] = self.encrypt_metadata
         if self.v == 5:
